@@ -298,6 +298,7 @@ def evaluate(run, cases, fixes):
     run.obligation("Hungarian oracle contract (optimal finite assignment; premise `contract_step` of the C10 theorems) by "
                    "brute force on every recorded Hungarian answer of the scenes", contract_bad == 0 and contract_n > 0,
                    f"{contract_bad} of {contract_n} answers")
+    check_geometry(run, cases, recs_all)
     st = run.coverage.setdefault("steps", {})
 
     def bump(k, n=1):
@@ -367,6 +368,98 @@ def evaluate(run, cases, fixes):
         bump(f"animals_{len({d['animal'] for fr in hist for d in fr})}")
         bump("x_flow", int(bool(cfg.get("flow")))); bump("x_max_tracks", int(cfg.get("max_tracks") is not None))
     return disagree, premise_mismatch
+
+
+# ---------------------------------------------------------------------------
+# geometry tie (C10/Geometry.v): bboxes + iou.  The Coq score function `iou` / `gmatrix` (exact over Q) is evaluated
+# on the boxes of the generated scenes — detections through /repo's get_bbox, candidates = the features the real
+# tracker handed to its scoring function — and compared with /repo's compute_iou and with the matrix recorded from
+# Tracker.get_scores.  Inputs are dyadic (k/8 px), so every box corner is exact in float64; compute_iou is about ten
+# float64 operations and nanmean adds at most `window` terms: relative error below 40 * 2^-53 < 1e-14; tolerance 1e-12.
+GEO_PREAMBLE = PREAMBLE + "From SV Require Import C10.Geometry.\n"
+GEO_RENDER = "rtriple (rlist (rlist (ropt rQ))) rbool (rlist (rlist (rlist rQ)))"
+GEO_TOL = F(1, 10 ** 12)
+
+
+def _cbox(b):
+    return "(" + ", ".join(core.cq(F(float(v))) + "%Q" for v in b) + ")"
+
+
+def check_geometry(run, cases, recs_all):
+    im = cc.impl()
+    np = im["np"]
+    from sleap_nn.tracking.utils import get_bbox, compute_iou
+    terms, meta = [], []
+    for (cfg, hist), recs in zip(cases, recs_all):
+        if cfg["features"] != "bboxes" or cfg["scoring"] != "iou" or cfg.get("flow"):
+            continue
+        own = {}
+        for k, (fr, rec) in enumerate(zip(hist, recs)):
+            m = rec["n_tracks_before"]
+            if "scores" in rec and "cand_feats" in rec and "insts" in rec:
+                bs = [np.asarray(get_bbox(i), dtype=float) for i in rec["insts"]]
+                C = rec["cand_feats"]
+                tr = [own.get(i.animal) for i in rec["insts"]]
+                term = ("(%s, [%s], [%s], [%s])" % (
+                    "true" if cfg["red_max"] else "false",
+                    "; ".join(_cbox(b) for b in bs),
+                    "; ".join("[" + "; ".join(_cbox(c) for c in cl) + "]" for cl in C),
+                    "; ".join("None" if t is None else f"(Some {t})" for t in tr)))
+                terms.append(term)
+                meta.append((cfg, hist, k, fr, rec, bs, C, dict(own), m))
+            if "out" in rec:
+                for i in rec["out"]:
+                    if i.track is not None and int(i.track.name) >= m and i.animal not in own:
+                        own[i.animal] = int(i.track.name)
+    res = core.coq_eval_sharded(GEO_PREAMBLE, terms, "geo_run", GEO_RENDER, shard=60, jobs=12) if terms else []
+    bad_matrix = bad_iou = prem_true = prem_false = prem_not_dominant = n_iou = 0
+
+    def note(msg):
+        if len(run.proof_broken) < 8:
+            run.proof_broken.append(msg)
+    for (cfg, hist, k, fr, rec, bs, C, own, m), (Mq, premb, ious) in zip(meta, res):
+        M = rec["scores"]
+        ok = len(Mq) == M.shape[0] and all(len(r) == M.shape[1] for r in Mq)
+        if ok:
+            for r, row in enumerate(Mq):
+                for c, q in enumerate(row):
+                    v = float(M[r][c])
+                    if (q is None) != math.isnan(v) or (q is not None and abs(F(q[0], q[1]) - F(v)) > GEO_TOL):
+                        ok = False
+        if not ok:
+            bad_matrix += 1
+            note(f"C10 geometry, frame {k}: Geometry.gmatrix {Mq} != Tracker.get_scores {M.tolist()}; "
+                 f"case {json.dumps(cc.hist_json(cfg, hist))[:1200]}")
+        for b, per_track in zip(bs, ious):
+            for cl, qs in zip(C, per_track):
+                for c, q in zip(cl, qs):
+                    n_iou += 1
+                    v = float(compute_iou(b, c))
+                    if abs(F(q[0], q[1]) - F(v)) > GEO_TOL:
+                        bad_iou += 1
+                        note(f"C10 geometry: Geometry.iou {q} != compute_iou({b.tolist()}, {c.tolist()}) = {v!r}")
+        if premb:
+            prem_true += 1
+            if not dominance_py(fr, M.tolist(), own, m):
+                prem_not_dominant += 1
+                note(f"C10 geometry, frame {k}: box-level premise (Geometry.geo_premb) holds but the recorded matrix is not "
+                     f"dominant; case {json.dumps(cc.hist_json(cfg, hist))[:1200]}")
+        else:
+            prem_false += 1
+    run.coverage["geometry_bboxes_iou"] = {"calls": len(terms), "iou_pairs": n_iou, "box_premise_holds": prem_true,
+                                           "box_premise_fails": prem_false}
+    run.obligation("geometry model (C10/Geometry.v, bboxes + iou): the score matrix computed INSIDE Coq over Q "
+                   "(Geometry.gmatrix: compute_iou, nanmean / nanmax, NaN for a track without candidate) from the detections' "
+                   "boxes (/repo get_bbox) and the candidate features the real tracker scored == the matrix recorded from "
+                   "Tracker.get_scores (1e-12), on every call of every non-flow bboxes+iou scene",
+                   bad_matrix == 0 and len(terms) > 0, f"{bad_matrix} of {len(terms)} calls")
+    run.obligation("geometry model: Geometry.iou == /repo compute_iou on every (detection box, candidate box) pair (1e-12)",
+                   bad_iou == 0 and n_iou > 0, f"{bad_iou} of {n_iou} pairs")
+    run.obligation("geometry premise on the evaluated path: the box-level premise of c10_geometry_gives_dominance (own boxes "
+                   "overlap, other animals' boxes one pixel apart; Geometry.geo_premb, evaluated inside Coq) holds on the "
+                   "generated bboxes+iou scenes, and wherever it holds the RECORDED matrix satisfies the dominance premise",
+                   prem_true > 0 and prem_not_dominant == 0 and prem_false * 19 <= prem_true,
+                   f"holds on {prem_true}, fails on {prem_false} calls; {prem_not_dominant} not dominant")
 
 
 def check_two_trackers(run, cases, fixes):
@@ -459,7 +552,9 @@ def check(run: core.Run) -> int:
         "idealisation: each scene runs on a tracker whose `_track_objects` dict is its own; `check_two_trackers` runs pairs of "
         "trackers with the class-level dict shared as in the code",
         "feature extraction and scoring functions enter through the recorded score matrices; 'far apart compared with the "
-        "motion' is represented by the dominance premise, which is measured on every recorded matrix",
+        "motion' is represented by the dominance premise, which is measured on every recorded matrix; for bboxes + iou it is "
+        "PROVED from the geometry (C10/Geometry.v) and the Coq score function is compared with compute_iou / get_scores "
+        "on every non-flow scene (check_geometry); for oks / euclidean_dist and flow-shifted candidates it stays measured",
         "duck-typed instances stand for sleap_io.PredictedInstance",
     ]
     run.assumptions += ["home positions 64 px apart (1000 px in regime fast_small), instance extent 16 x 20 px, largest per-frame step and spacing/step measured per run (coverage.largest_step_px, spacing_over_step: about 11 px, 6 x), window in {1,2,3,5}",
